@@ -3,41 +3,20 @@
   roundtrip : every file re-printed by ast.unparse (layout, comments, parentheses, string quotes change; line numbers move)
   rename    : every local variable (not parameters, not globals) of every function renamed  v -> v_rn
   params    : every parameter of every njit function renamed  p -> p_rn  (all calls in nucs are positional for njit functions)
-usage: neutral_sweep.py [roundtrip|rename|params ...]"""
+  flipcmp   : every two-operand comparison  a < b  written  b > a  (and <=, >, >=; == and != with swapped operands)
+  augassign : every  x += e / x -= e / x |= e  on a plain name or subscript written  x = x + e  (no repeated side effects: names and
+              subscripts of names only)
+  ifelse    : every  if c: A else: B  (with an else branch that is not an elif chain) written  if not c: B else: A
+  range0    : every  range(n)  written  range(0, n)
+  tempret   : every  return <expression>  (not a bare name / constant) written  _ret = <expression>; return _ret
+  chain     : every chained comparison  a < b < c  written  a < b and b < c  (b a name, constant or subscript of names: no repeated side effect)
+usage: neutral_sweep.py [roundtrip|rename|params|flipcmp|augassign|ifelse|range0|tempret|chain ...]"""
 import ast, os, shutil, subprocess, sys, tempfile, builtins
+sys.path.insert(0, os.path.dirname(os.path.dirname(os.path.abspath(__file__))))
+from nucsverif.neutral import transform, MODES
 from concurrent.futures import ThreadPoolExecutor
 VERIF = os.path.dirname(os.path.dirname(os.path.abspath(__file__)))
 ALL = ["C01", "C02", "C03", "C04", "C07", "C08", "C09", "C10", "C11", "C12", "C13", "C15", "C16", "C17", "C18", "C19"]
-
-class Renamer(ast.NodeTransformer):
-    def __init__(self, mode): self.mode = mode
-    def visit_FunctionDef(self, fn):
-        params = {a.arg for a in fn.args.args + fn.args.posonlyargs + fn.args.kwonlyargs}
-        if fn.args.vararg: params.add(fn.args.vararg.arg)
-        if fn.args.kwarg: params.add(fn.args.kwarg.arg)
-        stored = {n.id for n in ast.walk(fn) if isinstance(n, ast.Name) and isinstance(n.ctx, ast.Store)}
-        glob = {x for n in ast.walk(fn) if isinstance(n, (ast.Global, ast.Nonlocal)) for x in n.names}
-        is_njit = any("njit" in ast.unparse(d) for d in fn.decorator_list)
-        nested = [n for n in ast.walk(fn) if isinstance(n, (ast.FunctionDef, ast.Lambda)) and n is not fn]
-        if self.mode == "rename":
-            targets = (stored - params - glob) if not nested else set()
-        else:
-            kwcalled = False
-            targets = (params - {"self", "cls"}) if is_njit else set()
-        m = {t: t + "_rn" for t in targets if not t.startswith("__")}
-        if m:
-            for n in ast.walk(fn):
-                if isinstance(n, ast.Name) and n.id in m:
-                    n.id = m[n.id]
-                if self.mode == "params" and isinstance(n, ast.arg) and n.arg in m:
-                    n.arg = m[n.arg]
-        return fn
-
-def transform(src, mode):
-    tree = ast.parse(src)
-    if mode in ("rename", "params"):
-        tree = Renamer(mode).visit(tree)
-    return ast.unparse(tree) + "\n"
 
 def run(mode):
     tmp = tempfile.mkdtemp(prefix=f"nucsverif-neutral-{mode}-")
@@ -67,6 +46,6 @@ def run(mode):
         shutil.rmtree(tmp, ignore_errors=True)
 
 ok = True
-for mode in (sys.argv[1:] or ["roundtrip", "rename", "params"]):
+for mode in (sys.argv[1:] or MODES):
     ok = run(mode) and ok
 sys.exit(0 if ok else 1)
